@@ -70,6 +70,22 @@ SEEDS = {
              "a netplay name or connect code that fills its whole field (no NUL before the last byte)"),
     "C20b": ("C20", "parse_u8 hand-rolled: up to three digits accumulated in a u16 and cast with `as u8`",
              "a version component in 256..=999, e.g. \"256.0.0\" parses as 0.0.0"),
+    "C01c": ("C01", "gecko_codes writer: the last Message Splitter block's size field written as actual_size % 512",
+             "Gecko codes whose total size is a non-zero exact multiple of 512: the last block's size field is 0 instead of 512 (2 bytes differ)"),
+    "C03c": ("C03", "Item.damage read and written little-endian (reader and writer symmetric)",
+             "an item whose 16-bit damage has two different bytes; round trips stay clean"),
+    "C04c": ("C04", "frame close made lazy: Frame Start closes the previous frame for every version, Frame End no longer closes",
+             "a 3.0+ replay in which some character has no events in the very last frame: its columns are one row short"),
+    "C05c": ("C05", "player(): type byte decoded by an inlined match that knows Human and Cpu only",
+             "a port whose type byte is 2 (demo): silently dropped from start.players"),
+    "C06c": ("C06", "parse_payloads: size byte widened to usize and `size - 1` computed before the validity check",
+             "payload-table size byte 0: subtraction overflow panic (debug) / capacity overflow (release)"),
+    "C12c": ("C12", "parse_payloads / parse_game_start account only the bytes of the FIRST read of their payload (new read_fully helper returns n of the first read)",
+             "a stream that delivers the payload table or the Game Start payload in more than one piece: bytes_read() under-reports"),
+    "C13c": ("C13", "immutable PortData::transpose_one builds the follower's row from the leader's columns",
+             "the finished representation's row view of an Ice Climbers port"),
+    "C17c": ("C17", "ser::payload_sizes writes the Game End entry only when the game has a Game End",
+             "a game with end == None: the written file cannot be read back (reader requires the entry)"),
     "C20": ("C20", "Version::lt rewritten as `self.0 < major || self.1 < minor`",
             "a version whose major is above the threshold's major and whose minor is below the threshold's minor, e.g. 4.0 vs (3, 7)"),
 }
